@@ -63,6 +63,7 @@ class LayerMerger(LayerMerger):
             if (((layer_opts and not layer_opts.transparent) or image_opts.transparent)
                 and (not size or size == layer_img.size)
                 and (not layer_coverage or not layer_coverage.clip)
+                and not (layer_opts and layer_opts.opacity is not None and layer_opts.opacity < 1.0)
                     and not coverage):
                 # layer is opaque, no need to make transparent or add bgcolor
                 return layer_img
